@@ -41,6 +41,10 @@ PRESENTATION = {
     'PreferredUnitsMeta.__repr__': 'text output',
     'get_global_max_calc_step_size': 'returns the global step as a quantity displayed in the preferred unit',
 }
+# (function, slot) where the library feeds a nonzero bare constant to a preferred slot, with the reason it is harmless
+LIBRARY_CONSTANT_EXEMPT = {
+    ('Sight.__init__', 'distance'): 'scale_factor or 1: only read for SFP sights, where the parameter is required',
+}
 PRESENTATION_MODULES = {'py_ballisticcalc.visualize.plot': 'plotting', 'py_ballisticcalc.visualize.dataframe': 'table output',
                         'py_ballisticcalc.example': 'example script', 'py_ballisticcalc.logger': 'logging'}
 
@@ -226,6 +230,26 @@ def check_slots(prog: Program, rep, rule: str) -> None:
                 cand = cand.value
             if isinstance(cand, ast.Name) and cand.id in qp:
                 origin = cand.id
+            # alternatives the argument can evaluate to (x or d; a if c else b)
+            alts = []
+            todo = [arg]
+            while todo:
+                x = todo.pop()
+                if isinstance(x, ast.BoolOp):
+                    todo += list(x.values)
+                elif isinstance(x, ast.IfExp):
+                    todo += [x.body, x.orelse]
+                else:
+                    alts.append(x)
+            for alt in alts:
+                num = C.fold_number(prog, mod, alt)
+                if num is not None and num != 0 and (fq, slot) not in LIBRARY_CONSTANT_EXEMPT:
+                    rep.fail(rule, mod.path, call.lineno, fq, f'library-constant:{slot}:{norm(alt)[:30]}',
+                             f'the library\'s own constant `{norm(alt)}` (= {num:g}) is read through the preferred unit `{slot}`: '
+                             f'a default that the caller never passed changes with the preferred-unit setting, although all '
+                             f'inputs carry explicit units')
+                elif num is not None and num != 0:
+                    rep.ok(rule, where, f'{fq}: constant {norm(alt)} through `{slot}`: {LIBRARY_CONSTANT_EXEMPT[(fq, slot)]}')
             if origin is None:
                 # a literal unit constructor or a number: check the dimension of the constructor if there is one
                 udim = None
@@ -396,6 +420,7 @@ VARIANTS = [
     Variant('atmo-temperature-or-default', 'break', [(CON, 'Atmo.standard_temperature(self.altitude) if temperature is None else temperature', 'temperature or Atmo.standard_temperature(self.altitude)')], 'C07.R1', 'the defect repaired by 56b1bee', 'pass'),
     Variant('wind-until-or-default', 'break', [(CON, 'Distance.Foot(self.MAX_DISTANCE_FEET) if until_distance is None else until_distance', 'until_distance or Distance.Foot(self.MAX_DISTANCE_FEET)')], 'C07.R1', 'the defect repaired by e2838cb', 'pass'),
     Variant('danger-space-distance-slot', 'break', [(TD, 'PreferredUnits.target_height(target_height)', 'PreferredUnits.distance(target_height)')], 'C07.R2', 'the defect repaired by cd2aa9f', 'pass'),
+    Variant('ammo-default-powder-temp-bare', 'break', [(MUN, 'PreferredUnits.temperature(Temperature.Celsius(15) if powder_temp is None else powder_temp)', 'PreferredUnits.temperature(59.0 if powder_temp is None else powder_temp)')], 'C07.R2', 'the default follows the temperature preference (59 C, 59 K)'),
     Variant('twin-or-zero-float', 'twin', [(CON, 'PreferredUnits.angular(look_angle or 0)', 'PreferredUnits.angular(look_angle or 0.0)')], None),
     Variant('twin-is-none-form', 'twin', [(CON, 'PreferredUnits.angular(relative_angle or 0)', 'PreferredUnits.angular(0 if relative_angle is None else relative_angle)')], None),
 ]
